@@ -257,7 +257,8 @@ def gen_matchers(r, good, bad, fail):
     if bm:
         ms.insert(r.below(len(ms) + 1), bm)
     elif r.chance(1, 4):
-        ms.append({"kind": r.choice(["any", "custom"]), "paths": [r.choice(bad)], "errOnMissing": False, "type": "string", "stmt": r.chance(1, 2)})
+        ms.append({"kind": r.choice(["any", "custom", "type", "type"]), "paths": [r.choice(bad)], "errOnMissing": False,
+                   "type": r.choice(["string", "float64", "bool", "map"]), "stmt": r.chance(1, 2)})
     return ms
 
 
